@@ -194,6 +194,13 @@ class ExprMixin:
             return SV(v.ty, v.t, ("global", name))
         if name in ("True", "False"):
             return mk_bool(name == "True")
+        if name in self.reg.opaque_names:
+            # module-level object outside the subset (e.g. a list of functions): an unconstrained value of the declared type
+            key = "opaque_name:" + name
+            if key not in c.ghost:
+                c.ghost[key] = c.fresh(sorts.parse_ty(self.reg.opaque_names[name]), "m_" + name)
+            v = c.ghost[key]
+            return SV(v.ty, v.t)
         v = self.module_name(self.mod, name, node)
         if v is not None:
             return v
